@@ -55,6 +55,10 @@ class P:
             # workers), exporters in 4-octet and 16-octet form alike
             if i % 4 in (1, 2):       # (one sFlow, one IPFIX case out of four)
                 self.cj[line]["dispatch"] = True
+                # ... and the exporters send from all kinds of UDP source ports (the ports the mirror itself sends from among them: an
+                # exporter may use any ephemeral port)
+                ports = [55117, 55118, 0, 1, 1024, 4739, 6343, 65535, 40000]
+                self.cj[line]["dgrams"] = [x + [str(ports[k % len(ports)])] for k, x in enumerate(self.cj[line]["dgrams"])]
             out.append(line)
         # the copy the WORKER makes for the mirror goroutine (vflow/ipfix.go, vflow/sflow.go): real workers with mirroring on, the
         # mirror queue read only after all datagrams were processed (an aliased or reused buffer is then visibly overwritten)
